@@ -124,7 +124,19 @@ var syncHOF = map[string]bool{
 	"(*sync.Once).Do": true,
 }
 
+var lockMemo = map[*Prog]*LockInfo{}
+
+// computeLocks is memoised per loaded program (several properties use it).
 func computeLocks(p *Prog) *LockInfo {
+	if li, ok := lockMemo[p]; ok {
+		return li
+	}
+	li := computeLocksUncached(p)
+	lockMemo[p] = li
+	return li
+}
+
+func computeLocksUncached(p *Prog) *LockInfo {
 	li := &LockInfo{p: p,
 		must: map[ssa.Instruction]lockSet{}, may: map[ssa.Instruction]lockSet{},
 		entryMust: map[*ssa.Function]lockSet{}, entryMay: map[*ssa.Function]lockSet{},
